@@ -28,11 +28,13 @@ def mark_meta(marks, labels=None):
 
 class Gen:
     def __init__(self, rng, desc, enabled, marks=None, tasks=True, clock0=10000, unique_clocks=True,
-                 weights=None):
+                 weights=None, wrapped_pause=False):
         self.rng, self.desc = rng, desc
         self.enabled = set(enabled) | {"O"}
         self.marks = marks or {}
         self.tasks = tasks
+        # real runtimes pause a task from inside an API / blocking region
+        self.wrapped_pause = wrapped_pause
         self.sp = refemu.spec()
         self.hist = []       # (clock, key, mcv, payload, jumbo)
         self.clock = clock0
@@ -147,6 +149,9 @@ class Gen:
         st = th.ch[(mc, cn)]
         if st and r.random() < 0.45:
             top = st[-1]
+            if self.wrapped_pause and mc in "V6" and cn == "subsystem" and len(st) >= 2 \
+                    and st[-2] == refemu.TASK_BODY[mc] and th.bodies[mc] and th.bodies[mc][-1].state == "paused":
+                return None
             mcv = self.pop_by_label.get((mc, cn, top))
             if mcv:
                 return (th.key, mcv, b"")
@@ -229,7 +234,10 @@ class Gen:
         if top is not None and r.random() < 0.6:
             if top.state == "running":
                 if top.task.can_pause and r.random() < 0.5:
-                    # real runtimes pause inside a blocking/API region
+                    ss = th.ch[(mc, "subsystem")]
+                    if self.wrapped_pause and ss and ss[-1] == refemu.TASK_BODY[mc]:
+                        # real runtimes pause inside a blocking/API region
+                        return (th.key, "VAp" if mc == "V" else "6Bb", b"")
                     return (th.key, mc + "Tp", pl(top.task, top.id))
                 # end needs "Task: In body" on top of the subsystem stack
                 ss = th.ch[(mc, "subsystem")]
@@ -237,6 +245,9 @@ class Gen:
                     return (th.key, mc + "Te", pl(top.task, top.id))
                 return None
             if top.state == "paused":
+                ss = th.ch[(mc, "subsystem")]
+                if self.wrapped_pause and ss and ss[-1] == refemu.TASK_BODY[mc]:
+                    return None
                 return (th.key, mc + "Tr", pl(top.task, top.id))
         # execute some task
         if top is not None and top.state == "running" and not top.task.relax:
@@ -330,6 +341,11 @@ class Gen:
                             assert self.emit(th.key, mc + "Tr", pl)
                         assert self.emit(th.key, mc + "Te", pl)
                     else:
+                        if mc in "V6" and cn == "subsystem" and th.bodies[mc] and th.bodies[mc][-1].state == "paused" \
+                                and len(st) >= 2 and st[-2] == refemu.TASK_BODY[mc]:
+                            b = th.bodies[mc][-1]
+                            pl = obs.u32(b.task.id) if mc == "6" else obs.u32(b.task.id, b.id if b.task.parallel else 0)
+                            assert self.emit(th.key, mc + "Tr", pl)
                         assert self.emit(th.key, self.pop_by_label[(mc, cn, top)])
             if done:
                 break
